@@ -343,23 +343,29 @@ EditReturned(h, what) ==
   /\ UNCHANGED << ds, store, ver, ideal, ball, kd, jac, tmpl, exports >>
 
 (* ---- next-state relations ------------------------------------------------ *)
-Families == { "access", "areas", "trees", "plot", "data", "export", "derive", "chunk", "mutate", "edit", "copy",
+Families == { "access", "access1", "plot1", "areas", "trees", "plot", "data", "export", "derive", "chunk", "mutate", "edit", "copy",
               "flags", "metrics", "all" }   \* "flags": cache/override variants; "metrics": non-default metrics
 On(f) == f \in Focus \/ "all" \in Focus
 FlagVals(dflt) == IF On("flags") THEN BOOLEAN ELSE { dflt }
 MetricsOn(S) == IF On("metrics") THEN S ELSE S \ { "chebyshev" }
 
+\* reduced alphabets for configurations that concentrate on aliasing (C19)
+AccessVars == IF On("access") THEN VarNames
+              ELSE IF On("access1") THEN { "node_lat", "node_x", "face_lon", "edge_node_connectivity", "face_areas" }
+              ELSE {}
+PlotOne(pe, pr, en) == On("plot") \/ (pe = "exclude" /\ pr = "none" /\ en = "geopandas")
+
 ReadOnly ==
   \E h \in Handles :
-    \/ On("access") /\ \E v \in VarNames : Access(h, v)
+    \/ \E v \in AccessVars : Access(h, v)
     \/ On("areas") /\ \E a \in AreaArgs : ComputeAreas(h, a)
     \/ On("trees") /\ \E k \in Kinds, s \in Systems, rec \in BOOLEAN :
          \/ \E m \in MetricsOn(BallMetrics(s)) : GetTree("ball", h, k, s, m, rec)
          \/ \E m \in MetricsOn(KdMetrics(s)) : GetTree("kd", h, k, s, m, rec)
-    \/ On("plot") /\ \E pe \in PEs, pr \in Projs, cache \in FlagVals(TRUE), override \in FlagVals(FALSE) :
-         \/ \E en \in Engs : ToGdf(h, pe, pr, en, cache, override)
-         \/ ToPoly(h, pe, pr, cache, override)
-         \/ ToLine(h, pe, pr, cache, override)
+    \/ (On("plot") \/ On("plot1")) /\ \E pe \in PEs, pr \in Projs, cache \in FlagVals(TRUE), override \in FlagVals(FALSE) :
+         \/ \E en \in Engs : PlotOne(pe, pr, en) /\ ToGdf(h, pe, pr, en, cache, override)
+         \/ PlotOne(pe, pr, "geopandas") /\ ToPoly(h, pe, pr, cache, override)
+         \/ PlotOne(pe, pr, "geopandas") /\ ToLine(h, pe, pr, cache, override)
     \/ On("data") /\ \E pe \in PEs, en \in Engs, col \in { "a", "b" } : DataToGdf(h, pe, en, col)
     \/ On("export") /\ \E f \in Fmts : ToXarray(h, f)
     \/ On("derive") /\ \E how \in { "isel_face", "isel_node", "isel_edge", "xsec", "dual", "bbox" } : Derive(h, how)
@@ -405,6 +411,12 @@ TypeOK ==
   /\ ds \in [Handles -> DsIds \cup { 0 }]
   /\ \A d \in DsIds : store[d] \subseteq Stored
   /\ \A h \in Handles : jac[h] = NoObj \/ jac[h] \in AreaArgs
+
+\* depth bounds for configurations whose full state space is too large
+Depth3 == TLCGet("level") <= 3
+Depth4 == TLCGet("level") <= 4
+Depth5 == TLCGet("level") <= 5
+Depth6 == TLCGet("level") <= 6
 
 (* ---- mechanisms ----------------------------------------------------------- *)
 MechIntended ==
